@@ -7,6 +7,7 @@ import Astisub.Driver.SRT
 import Astisub.Driver.VTT
 import Astisub.Driver.SSA
 import Astisub.Driver.Teletext
+import Astisub.Driver.TTML
 
 open Astisub Astisub.Driver Astisub.Proto
 
@@ -25,6 +26,7 @@ def handleLine (line : String) : Verdict :=
     else if op.startsWith "vtt." then handleVTT op args impl
     else if op.startsWith "ssa." then handleSSA op args impl
     else if op.startsWith "teletext." then handleTeletext op args impl
+    else if op.startsWith "ttml." then handleTTML op args impl
     else .bad s!"unknown stream {op}"
 
 structure Stats where
